@@ -13,6 +13,7 @@ def errStr : Err → String
   | .exc i => s!"x{i}"
   | .wrapped i => s!"w{i}"
   | .reported i => s!"r{i}"
+  | .notInit => "ni"
 
 def errOptStr : Option Err → String
   | none => "-"
@@ -24,6 +25,7 @@ def parseErr (s : String) : Option Err :=
   | 'x' :: r => Err.exc <$> (String.ofList r).toNat?
   | 'w' :: r => Err.wrapped <$> (String.ofList r).toNat?
   | 'r' :: r => Err.reported <$> (String.ofList r).toNat?
+  | ['n', 'i'] => some .notInit
   | _ => none
 
 def replyStr : Reply → String
@@ -36,11 +38,21 @@ def replyStr : Reply → String
 
 def b01 (b : Bool) : String := if b then "1" else "0"
 
+def parseFamily : String → Option Family
+  | "g" => some .generic
+  | "c" => some .circuitError
+  | "i" => some .invalidState
+  | "u" => some .unknownEvent
+  | "t" => some .typeError
+  | _ => none
+
 def parseOp : List String → Option Op
   | ["start", "-"] => some (.start none)
   | ["start", i] => (fun n => Op.start (some n)) <$> i.toNat?
   | ["abort", e] => Op.abortCall <$> parseErr e
-  | ["handlerErr", i] => Op.handlerErr <$> i.toNat?
+  | ["handlerErr", i, f] => do pure (.handlerErr (← i.toNat?) (← parseFamily f))
+  | ["handlerErr", i] => (fun n => Op.handlerErr n .generic) <$> i.toNat?       -- (C14's protocol: a generic exception)
+  | ["earlyInitFail", i] => Op.earlyInitFail <$> i.toNat?
   | ["paramErr"] => some .paramErr
   | ["unknownEvt"] => some .unknownEvt
   | ["nestedUnknown"] => some (.nestedUnknown true)
@@ -48,7 +60,8 @@ def parseOp : List String → Option Op
   | ["ctrlAbort", i] => Op.ctrlAbort <$> i.toNat?
   | ["ctrlShutdown"] => some .ctrlShutdown
   | ["armCalc", i] => (fun n => Op.armCalc (.calc n)) <$> i.toNat?
-  | ["armCalcHandler", i] => (fun n => Op.armCalc (.calcHandler n)) <$> i.toNat?
+  | ["armCalcHandler", i, f] => do pure (.armCalc (.calcHandler (← i.toNat?) (← parseFamily f)))
+  | ["armCalcHandler", i] => (fun n => Op.armCalc (.calcHandler n .generic)) <$> i.toNat?
   | ["rawCancel"] => some .rawCancel
   | ["monTrigger", i] => Op.monTrigger <$> i.toNat?
   | ["supFail", i, e] => do pure (.supTrigger (← i.toNat?) (some (← e.toNat?)))
@@ -82,6 +95,12 @@ def handle (d : DState) : List String → DState × String
   | "sop" :: r =>      -- silent operation: the implementation cannot be observed at this point
     match parseOp r with
     | some op => ({ st := (step d.st op).1 }, "ok")
+    | none => (d, "bad-op")
+  | "eop" :: r =>      -- an operation of which only the caller's reply can be observed
+    match parseOp r with
+    | some op =>
+      let (s, o) := step d.st op
+      ({ st := s }, replyStr o.reply)
     | none => (d, "bad-op")
   | "op" :: r =>
     match parseOp r with
